@@ -337,6 +337,8 @@ def build(r, o: Objs, evaluate=True):
         return sympy.Add(build(r[1], o, evaluate), build(r[2], o, evaluate), **kw)
     if t == "smul":
         return sympy.Mul(build(r[1], o, evaluate), build(r[2], o, evaluate), **kw)
+    if t == "sdiv":
+        return sympy.Mul(build(r[1], o, evaluate), sympy.Pow(build(r[2], o, evaluate), -1, **kw), **kw)
     if t == "dot":
         return V.VectorDot(build(r[1], o, evaluate), build(r[2], o, evaluate), **kw)
     if t == "mixed":
